@@ -16,7 +16,7 @@ from harness import pipeline as pl
 
 PROPERTY = "C08"
 
-STEPS = ["XY", "XYZ", "XYE", "X", "Z", "E"]
+STEPS = ["XY", "XYZ", "XYE", "X", "Z", "E", "HOME"]
 KF_REL_EXIT = "exit_while_xyz_relative"
 KF_G92 = "g92_xyz_rebase"
 KF_ENTER_Z = "entering_move_has_z"
@@ -70,6 +70,15 @@ def scen(w, enc="inch", K=3, kinds="r"):
                 shift = {ax: cur[ax] - new[ax] for ax in "XYZ"}
         st = STEPS[w.choose(len(STEPS), "step")]
         w.cover("step-" + st)
+        if st == "HOME":
+            if enc == "shift":
+                pl.skip(w, "homing is not translated")
+            ra = a.feed("G28 X Y", catch=False)
+            rb = b.feed("G28 X Y", catch=False)
+            cur["X"] = cur["Y"] = 0
+            if enc == "g92" and switched:
+                shift["X"] = shift["Y"] = 0
+            continue
         first_shift = (enc == "shift" and k == 0)
         if first_shift and not st.startswith("XY"):
             # homing is not translated: the translated path starts with a positioning move onto the path
